@@ -576,8 +576,19 @@ def expected_sources(label, props, attrs, vals):
     return e
 
 
-def eval_tree_case(rec, attrs, variant, shift, geom, deep=True, text=True):
-    """-> dict(findings=[(key, what)], drift=int, nontrivial=bool, sample=dict)"""
+BLANK_FORMS = ("none", "empty-array", "empty-stream")
+
+
+def blank_mode_of(i):
+    """three cases in eight have a blank page: first / middle / last position, the three spellings in turn"""
+    return (i % 8 if i % 8 < 4 else 0) + 4 * ((i // 8) % 3)
+
+
+def eval_tree_case(rec, attrs, variant, shift, geom, deep=True, text=True, blank_mode=0):
+    """-> dict(findings=[(key, what)], drift=int, nontrivial=bool, sample=dict)
+    blank_mode: 0 no blank page; 1 / 2 / 3 the first / a middle / the last produced page has no content (no /Contents,
+    /Contents [], /Contents [empty stream], taken in turn): it is still a page - one layout with its box and no glyph
+    from extract_pages, one form feed from extract_text"""
     from pdfminer.high_level import extract_pages, extract_text
     findings = []
     drift = 0
@@ -586,9 +597,14 @@ def eval_tree_case(rec, attrs, variant, shift, geom, deep=True, text=True):
     fired = set(rec["fired"])
     pagenos, maxpages = sorted(rec["pagenos"]), rec["maxpages"]
     mark_src = {p["node"]: as_props(p).get("MediaBox", 0) for p in coded}
-    data, meta = RT.realise(g, rec["cat"], attrs, variant, shift, mark_box_src=mark_src)
+    blank = {}
+    if blank_mode % 4 and coded:
+        pos = {1: 0, 2: len(coded) // 2, 3: len(coded) - 1}[blank_mode % 4]
+        blank[coded[pos]["node"]] = BLANK_FORMS[(blank_mode // 4 + shift) % 3]
+    data, meta = RT.realise(g, rec["cat"], attrs, variant, shift, mark_box_src=mark_src, blank=blank)
     vals = meta["values"]
-    detail = "graph %s cat=%s (variant %d)" % (json.dumps([[n["kind"], n["own"], n["kids"]] for n in g]), rec["cat"], variant)
+    detail = "graph %s cat=%s (variant %d%s)" % (json.dumps([[n["kind"], n["own"], n["kids"]] for n in g]), rec["cat"], variant,
+                                                  ", blank page %s" % blank if blank else "")
     letters = lambda nodes: "".join(chr(64 + x) for x in nodes)     # noqa: E731
     out = {"findings": findings, "drift": 0, "nontrivial": False, "sample": None}
 
@@ -669,8 +685,14 @@ def eval_tree_case(rec, attrs, variant, shift, geom, deep=True, text=True):
             got = []
             for lt in lts:
                 ch = [c for c in OB.chars_of(lt) if c[0].isalpha()]
-                got.append(ch[0][0] if len(ch) == 1 else "?")
-            got_idx = [real_nodes.index(ord(c) - 64) if c != "?" and (ord(c) - 64) in real_nodes else -1 for c in got]
+                got.append(ch[0][0] if len(ch) == 1 else "" if not ch else "?")
+            got_idx = [real_nodes.index(ord(c) - 64) if c not in ("?", "") and (ord(c) - 64) in real_nodes else -1 for c in got]
+            # a layout without glyphs stands for the blank page if that is the page due at its position
+            for k, c in enumerate(got):
+                if c == "" and k < len(rec["refsel"]) and real_nodes[rec["refsel"][k]] in blank:
+                    got_idx[k] = rec["refsel"][k]
+            if len({id(lt) for lt in lts}) != len(lts):
+                findings.append(("extract_pages:layout-yielded-twice", "extract_pages yields the same LTPage object for two pages (%s)" % detail))
             if judge_selection(got_idx, "extract_pages"):
                 for lt, i in zip(lts, got_idx):
                     lab, srcs = real[i]
@@ -694,6 +716,11 @@ def eval_tree_case(rec, attrs, variant, shift, geom, deep=True, text=True):
                     rraw = vals.rotate(cp["Rotate"]) if cp["Rotate"] != 0 else 0
                     grec = geom.lookup(vals.box_units(cp["MediaBox"]), rraw, vals.mark_units(lab, cp["MediaBox"]))
                     ch = [c for c in OB.chars_of(lt) if c[0].isalpha()]
+                    if lab in blank:
+                        if ch:
+                            findings.append(("blank-page:glyphs", "the blank page %s comes out with glyphs %s (%s)" % (lab, [c[0] for c in ch], detail)))
+                        drift += judge_geometry(grec, lt.bbox, None, findings, "blank page %s of %s" % (lab, detail))
+                        continue
                     want_font = vals.font(cp["Resources"]) if cp["Resources"] != 0 else "unknown"
                     if ch[0][2] != want_font:
                         if cp["Resources"] == 0:
@@ -704,13 +731,24 @@ def eval_tree_case(rec, attrs, variant, shift, geom, deep=True, text=True):
                     drift += judge_geometry(grec, lt.bbox, ch[0][1], findings, "page %s of %s" % (lab, detail))
         # ---- extract_text
         ok, txt = (guarded("extract_text", lambda: extract_text(BytesIO(data), page_numbers=pn_arg, maxpages=maxpages), findings, detail)
-                   if (text or pagenos or maxpages) else (False, None))
+                   if (text or pagenos or maxpages or blank) else (False, None))
         if ok:
-            seq = re.findall(r"[A-Z]", txt)
-            got_idx = [real_nodes.index(ord(c) - 64) if (ord(c) - 64) in real_nodes else -1 for c in seq]
-            if txt.count("\x0c") != len(seq):
+            # one form feed per page, blank or not; between them the page's letter (nothing for the blank page)
+            parts = txt.split("\x0c")
+            if parts and parts[-1].strip() == "":
+                parts = parts[:-1]
+            got_idx = []
+            for k, part in enumerate(parts):
+                letters = re.findall(r"[A-Z]", part)
+                if len(letters) == 1 and (ord(letters[0]) - 64) in real_nodes:
+                    got_idx.append(real_nodes.index(ord(letters[0]) - 64))
+                elif not letters and k < len(rec["refsel"]) and real_nodes[rec["refsel"][k]] in blank:
+                    got_idx.append(rec["refsel"][k])
+                else:
+                    got_idx.append(-1)
+            if txt.count("\x0c") != len(parts):
                 findings.append(("selection:pages-vs-text@extract_text", "extract_text wrote %d page ends for %d page texts on %s"
-                                 % (txt.count("\x0c"), len(seq), detail)))
+                                 % (txt.count("\x0c"), len(parts), detail)))
             judge_selection(got_idx, "extract_text")
     out["drift"] = drift
     inherits = any(v not in (0, p["node"]) for p in ref for v in as_props(p).values())
@@ -736,7 +774,7 @@ def _tree_chunk(args):
     res = []
     for i in range(lo, hi):
         for v in variants(i):
-            r = eval_tree_case(recs[i], attrs, v, (base + i) % 7, geom, text=(i % 4 == 0))
+            r = eval_tree_case(recs[i], attrs, v, (base + i) % 7, geom, text=(i % 4 == 0), blank_mode=blank_mode_of(i))
             res.append((i, v, r["findings"], r["drift"], r["nontrivial"], r["sample"] if (r["findings"] or i % 997 == 0) else None))
     return res
 
@@ -844,7 +882,7 @@ def replay_trees(ck, conf, recs, geom, both_variants):
                             ck.note("create_pages changed the document's own objects (model: the document is read-only): " + what)
                         continue
                     report(ck, key, what, {"kind": "tree", "rec": recs[i], "attrs": list(conf["attrs"]), "variant": v,
-                                           "shift": (ck.seed + i) % 7, "config": conf["name"]})
+                                           "shift": (ck.seed + i) % 7, "config": conf["name"], "blank_mode": blank_mode_of(i)})
                 ck.case(1, ("T", conf["name"], i) if nontrivial else None)
                 ck.replayed += 1
                 if sample is not None and not [f for f in findings if f[0] != "walk-mutates-document" and not f[0].startswith("extended:")]:
@@ -1198,7 +1236,7 @@ def replay(path):
             bad = findings
         elif kind == "tree":
             geom = GeomTable(run_geom_tlc(None, "thorough" if case.get("config", "").startswith("simulate") else "quick", dev, tmp))
-            r = eval_tree_case(case["rec"], tuple(case["attrs"]), case["variant"], case["shift"], geom)
+            r = eval_tree_case(case["rec"], tuple(case["attrs"]), case["variant"], case["shift"], geom, blank_mode=case.get("blank_mode", 0))
             print(json.dumps(r["sample"], indent=1, default=repr))
             bad = r["findings"]
         elif kind == "trace" and case.get("trace"):
